@@ -495,7 +495,6 @@ def moments(exe):
 def run(chk):
     from translate import rng as trans
     quick = chk.tier == "quick"
-    path, differs = trans.generate()
     st = trans.selftest()
     chk.rule = ("histories `dev <naive|eigen> <seed>` followed by requests of the rng family (random::bernoulli/uniform/normal/log_normal/gumbel "
                 "as Tensor and as Node through the Device&/Device*/default-device overloads, dropout, the 8 initializers applied to a tensor and "
@@ -504,7 +503,16 @@ def run(chk):
                 "just outside it (upper < lower, sd in {0,-0,<0}, p in {1+ulp, -denormal}) and NaN/inf. Each history runs on two fresh devices "
                 "with the same seed in the harness (reproducibility), which also draws the standard draws of a replicated std::mt19937(seed); the Lean model "
                 "recomputes the device output from these draws (bit for bit). non-trivial = the request was accepted (ok); distinct = distinct lines incl. raws.")
-    chk.obligations(MODS, drivers=[FAMILY])
+    # Gen/Rng.lean is regenerated by every check process from *its* VERIF_REPO; when runs against different trees
+    # overlap, make sure that what was built is the text generated from the tree this run is about
+    for attempt in range(4):
+        path, differs = trans.generate()
+        mine = open(path).read()
+        chk.oblig = None
+        chk.obligations(MODS, drivers=[FAMILY])
+        if open(path).read() == mine:
+            break
+        chk.notes.append("Gen/Rng.lean was overwritten by a concurrent run against another tree during the build; regenerated and rebuilt")
     if st:
         chk.report("translator-selftest", "translate/rng.py self-test failed: %r" % (st[:3],), {"selftest": [list(map(str, x)) for x in st]}, found_input=False)
     if differs:
